@@ -230,6 +230,22 @@ def scripts_for(tier: str, seed: int) -> List[List[Dict[str, Any]]]:
         s += [{"ev": "Key", "press": False, "code": codes[0], "name": None}]
         s += [{"ev": "Step", "ins": {"k": "NOP"}} for _ in range(8)]
         out.append(s)
+    # the same pile-up with interrupts disabled and no handler running (the Rust core scans the matrix only on main-timer ticks
+    # OUTSIDE handlers): a fast main timer, three keys held on strobed columns, nothing reads the queue - the ring runs exactly
+    # full and then overflows, and every step in between is a snapshot point
+    for i in range(2 if tier == "quick" else 10):
+        codes = rnd.sample([0x01, 0x03, 0x09, 0x0A, 0x11, 0x21], 3 if i % 2 == 0 else 1)
+        s = [{"ev": "TimerCfg", "pm": rnd.choice([1, 2]), "ps": 0}, {"ev": "Step", "ins": {"k": "SETIMR", "v": 0x00}},
+             {"ev": "Step", "ins": {"k": "STROBE", "v": 0xFF}}]
+        s += [{"ev": "Key", "press": True, "code": c, "name": None} for c in codes]
+        for _ in range(rnd.choice([26, 34])):
+            if rnd.random() < 0.5:
+                s += [{"ev": "Step", "ins": {"k": "SETI", "v": rnd.choice([2, 4, 7])}}, {"ev": "Step", "ins": {"k": "WAIT"}}]
+            else:
+                s.append({"ev": "Step", "ins": {"k": "NOP"}})
+        s += [{"ev": "Key", "press": False, "code": codes[0], "name": None}]
+        s += [{"ev": "Step", "ins": {"k": "NOP"}} for _ in range(6)]
+        out.append(s)
     # a machine whose cycle counter crosses 2^31 while both timers run (absolute targets no longer fit 31 bits)
     for i in range(2 if tier == "quick" else 10):
         s = [{"ev": "Origin", "c": (1 << 31) - rnd.choice([30, 60, 90])}, {"ev": "TimerCfg", "pm": rnd.choice([16, 24]), "ps": rnd.choice([40, 56])},
